@@ -11,6 +11,10 @@
 (*                                                                         *)
 (*   pc        current phase (Phases below, in code order)                 *)
 (*   src       the input: sequence of abstract entities (TranslateSrc.tla) *)
+(*   lay       the layout of the text (TranslateSrc.tla: line ending,      *)
+(*             definitions per line, indentation, comments); it decides    *)
+(*             the positions of the entities and the bytes of a raw line   *)
+(*             break inside a string literal, nothing else                 *)
 (*   i         next entity of src to index (phase "index")                 *)
 (*   old       the AST indices: name -> position(s) in src (0 = absent),   *)
 (*             the textual order of global entities, the ID counter for    *)
@@ -37,6 +41,13 @@
 (* (C20).  Canon(src) is a closed form of src that never mentions an       *)
 (* order, so Deterministic is confluence over all Pick orders.             *)
 (*                                                                         *)
+(* Fault classes (all single-point): RefFaults (undefined name), DupFaults, *)
+(* DelFaults, ClashFaults, QuotedFaults (%"0"), NumeralFaults (%0),        *)
+(* DupZeroFaults, EmptyQuotedFaults (%"", @""), CrossFaults (a local or    *)
+(* block of ANOTHER function), ModLocalFaults (a local at module level),   *)
+(* WideIdFaults (an ID wider than 64 bits).  TextualIsPositional (C20):    *)
+(* textual order is the order of (line, column) under every layout.        *)
+(*                                                                         *)
 (* Binding: TranslateGen.cfg emits one vector per source (pattern x        *)
 (* fault x permutation) with Canon(src); the Go harness renders it,        *)
 (* parses it with the real translator and compares outcome, definition     *)
@@ -46,15 +57,16 @@
 EXTENDS TranslateSrc, Json, IOUtils
 
 CONSTANTS AsImplemented,   \* model the pinned code's deviations
-          SourceSet,       \* which sources to enumerate: "patterns", "faults", "perms", "faultperms", "alias", "all"
+          SourceSet,       \* which sources to enumerate: "patterns", "faults", "perms", "faultperms", "alias", "all",
+                           \* "layouts" (patterns x Layouts), "layoutfaults" (their faults x Layouts)
           PermAllUpTo      \* sources up to this length are permuted in every way
 
 NS == INSTANCE NatSort WITH Alphabet <- {}, MaxLen <- 0, a <- <<>>, b <- <<>>, c <- <<>>, stage <- 0
 ASSUME NamesSorted == \A j \in 1..(Len(NameOrder) - 1) : NS!RefLess(NameBytes[j], NameBytes[j + 1])
 
-VARIABLES pc, src, i, old, new, pend, uses, todo, res, picks
-vars == <<pc, src, i, old, new, pend, uses, todo, res, picks>>
-View == <<pc, src, i, old, new, pend, uses, todo, res>>
+VARIABLES pc, src, lay, i, old, new, pend, uses, todo, res, picks
+vars == <<pc, src, lay, i, old, new, pend, uses, todo, res, picks>>
+View == <<pc, src, lay, i, old, new, pend, uses, todo, res>>
 
 Phases == <<"choose", "index", "createType", "translateType", "translateComdat", "createGlobal",
             "createAttr", "createNmd", "createMd", "translateGlobal", "translateAttr", "translateNmd",
@@ -69,7 +81,8 @@ IndexOf(k) == CASE k \in GlobKinds -> "glob" [] k = "type" -> "type" [] k = "com
 NoneF == [n \in Names |-> 0]
 EmptyOld == [type |-> NoneF, comdat |-> NoneF, glob |-> NoneF, md |-> NoneF,
              attr |-> [n \in Names |-> <<>>], nmd |-> [n \in Names |-> <<>>],
-             globOrder |-> <<>>, ulos |-> <<>>, ulobbs |-> <<>>, nextID |-> 0]
+             globOrder |-> <<>>, ulos |-> <<>>, ulobbs |-> <<>>, nextID |-> 0,
+             asms |-> <<>>, target |-> [srcfile |-> 0, triple |-> 0, datalayout |-> 0]]
 NoneS == [n \in Names |-> "none"]
 EmptyNew == [type |-> NoneS, comdat |-> NoneS, glob |-> NoneS, md |-> NoneS, attr |-> NoneS, nmd |-> NoneS,
              tobj |-> [n \in Names |-> [to |-> "", copy |-> FALSE]]]
@@ -150,6 +163,65 @@ QuotedFaults(s) ==
                                     /\ RefClass(s[e].locals[l].refs[r].rk) \in {"glob", "local"}} }
   IN top \cup loc
 
+\* every reference to a local, a block (blockaddress / uselistorder_bb) or a global entity redirected to the EMPTY quoted
+\* name of its sigil (%"", @""): a name nothing has -- it must not be taken for the entity numbered 0 (whose name field is
+\* empty as well), whether or not the source has such an entity
+EmptyQuotedFaults(s) ==
+  LET top == { [s EXCEPT ![e] = [@ EXCEPT !.refs = SetRefTo(@, r, UndefE)]] :
+                 <<e, r>> \in {<<e, r>> \in (1..Len(s)) \X (1..8) : r <= Len(s[e].refs) /\ RefClass(s[e].refs[r].rk) \in {"glob", "block"}} }
+      topaux == { [s EXCEPT ![e] = [@ EXCEPT !.refs = SetRefAux(@, r, UndefE)]] :
+                 <<e, r>> \in {<<e, r>> \in (1..Len(s)) \X (1..8) : r <= Len(s[e].refs) /\ RefClass(s[e].refs[r].rk) = "block"} }
+      loc == { [s EXCEPT ![e] = [@ EXCEPT !.locals = [@ EXCEPT ![l] = [@ EXCEPT !.refs = SetRefTo(@, r, UndefE)]]]] :
+                 <<e, l, r>> \in {<<e, l, r>> \in (1..Len(s)) \X (1..16) \X (1..4) :
+                                    l <= Len(s[e].locals) /\ r <= Len(s[e].locals[l].refs)
+                                    /\ RefClass(s[e].locals[l].refs[r].rk) \in {"glob", "local", "block"}} }
+      locaux == { [s EXCEPT ![e] = [@ EXCEPT !.locals = [@ EXCEPT ![l] = [@ EXCEPT !.refs = SetRefAux(@, r, UndefE)]]]] :
+                 <<e, l, r>> \in {<<e, l, r>> \in (1..Len(s)) \X (1..16) \X (1..4) :
+                                    l <= Len(s[e].locals) /\ r <= Len(s[e].locals[l].refs)
+                                    /\ (RefClass(s[e].locals[l].refs[r].rk) = "block" \/ s[e].locals[l].refs[r].aux \notin {"", "implicit"})} }
+  IN top \cup topaux \cup loc \cup locaux
+
+FuncsOf(s) == {e \in 1..Len(s) : s[e].k = "func" /\ s[e].locals # <<>>}
+LocalNamesOf(f) == {f.locals[l].n : l \in 1..Len(f.locals)} \ {""}
+BlockNamesOf(f) == {f.locals[l].n : l \in {l \in 1..Len(f.locals) : f.locals[l].lk = "block"}} \ {""}
+\* a local named where no function scope exists: a value `i32 %x` in a module-level metadata node, the value of a
+\* module-level use-list order (the name is a local of some function of the source if it has one)
+AnyLocal(s) == LET ns == UNION {LocalNamesOf(s[g]) : g \in FuncsOf(s)} IN
+               IF ns = {} THEN Undef ELSE CHOOSE n \in ns : \A m \in ns : Rank(n) <= Rank(m)
+ModLocalFaults(s) ==
+  { [s EXCEPT ![e] = [@ EXCEPT !.refs = Append(@, Ref("l.mdlocal", AnyLocal(s)))]] :
+      e \in {e \in 1..Len(s) : s[e].k = "md" /\ s[e].body \in {"tuple", "distinct"}} }
+  \cup { [s EXCEPT ![e] = [@ EXCEPT !.refs = <<Ref("l.ulolocal", AnyLocal(s))>>]] : e \in {e \in 1..Len(s) : s[e].k = "ulo"} }
+\* metadata / attribute-group references redirected to an ID that does not fit 64 bits
+WideIdFaults(s) ==
+  { [s EXCEPT ![e] = [@ EXCEPT !.refs = SetRefTo(@, r, UndefW)]] :
+      <<e, r>> \in {<<e, r>> \in (1..Len(s)) \X (1..8) : r <= Len(s[e].refs) /\ RefClass(s[e].refs[r].rk) \in {"md", "attr"}} }
+
+\* scope faults: a reference to a local redirected to a name that is a local of ANOTHER function and not of this one; a
+\* block reference (blockaddress / uselistorder_bb) redirected to a block that another function has and the named one has
+\* not.  A local never resolves outside its own function.
+CrossFaults(s) ==
+  LET \* one foreign name per reference site (the least in name order)
+      Pick1(S) == CHOOSE n \in S : \A m \in S : Rank(n) <= Rank(m)
+      ForeignLocals(e) == (UNION {LocalNamesOf(s[g]) : g \in FuncsOf(s) \ {e}}) \ LocalNamesOf(s[e])
+      loc == { [s EXCEPT ![t[1]] = [@ EXCEPT !.locals = [@ EXCEPT ![t[2]] = [@ EXCEPT !.refs = SetRefTo(@, t[3], t[4])]]]] :
+                 t \in {t \in (1..Len(s)) \X (1..16) \X (1..4) \X Names :
+                          /\ t[2] <= Len(s[t[1]].locals) /\ t[3] <= Len(s[t[1]].locals[t[2]].refs)
+                          /\ RefClass(s[t[1]].locals[t[2]].refs[t[3]].rk) = "local"
+                          /\ ForeignLocals(t[1]) # {} /\ t[4] = Pick1(ForeignLocals(t[1]))} }
+      ownerOf(to) == {e \in FuncsOf(s) : KeyOf(s, e) = to}
+      foreign(to) == UNION {BlockNamesOf(s[g]) : g \in FuncsOf(s) \ ownerOf(to)} \ UNION {BlockNamesOf(s[g]) : g \in ownerOf(to)}
+      top == { [s EXCEPT ![t[1]] = [@ EXCEPT !.refs = SetRefAux(@, t[2], t[3])]] :
+                 t \in {t \in (1..Len(s)) \X (1..8) \X Names :
+                          /\ t[2] <= Len(s[t[1]].refs) /\ RefClass(s[t[1]].refs[t[2]].rk) = "block"
+                          /\ foreign(s[t[1]].refs[t[2]].to) # {} /\ t[3] = Pick1(foreign(s[t[1]].refs[t[2]].to))} }
+      locb == { [s EXCEPT ![t[1]] = [@ EXCEPT !.locals = [@ EXCEPT ![t[2]] = [@ EXCEPT !.refs = SetRefAux(@, t[3], t[4])]]]] :
+                 t \in {t \in (1..Len(s)) \X (1..16) \X (1..4) \X Names :
+                          /\ t[2] <= Len(s[t[1]].locals) /\ t[3] <= Len(s[t[1]].locals[t[2]].refs)
+                          /\ RefClass(s[t[1]].locals[t[2]].refs[t[3]].rk) = "block"
+                          /\ foreign(s[t[1]].locals[t[2]].refs[t[3]].to) # {} /\ t[4] = Pick1(foreign(s[t[1]].locals[t[2]].refs[t[3]].to))} }
+  IN loc \cup top \cup locb
+
 \* references to locals and to blocks (blockaddress / uselistorder_bb) redirected to the bare numeral %0 in a
 \* function all of whose values are named: an ID nothing has (it must not be taken for the first named block, whose
 \* ID field is also 0)
@@ -181,7 +253,7 @@ DupZeroFaults(s) ==
 \* permutations of the top-level entities that keep the relative order of unnamed globals and of
 \* entities with the same key (attribute groups / named metadata merged in textual order);
 \* use-list order directives stay last (LLVM wants their targets defined)
-Fixed(e) == e.k \in {"ulo", "ulobb"} \/ (e.k \in GlobKinds /\ e.n = "")
+Fixed(e) == e.k \in {"ulo", "ulobb"} \/ e.k \in TargetKinds \/ (e.k \in GlobKinds /\ e.n = "")
 PermOK(s, p) ==
   /\ \A x \in 1..Len(s) : Fixed(s[x]) => p[x] = x
   /\ \A x, y \in 1..Len(s) : (x < y /\ s[p[x]].k = s[p[y]].k /\ s[p[x]].n = s[p[y]].n) => p[x] < p[y]
@@ -195,14 +267,20 @@ CandPerms(n) == IF n <= PermAllUpTo THEN PermsOf(1..n)
 Perms(s) == { [x \in 1..Len(s) |-> s[p[x]]] : p \in {q \in CandPerms(Len(s)) : PermOK(s, q)} }
 
 PatternSet == {Patterns[k] : k \in 1..Len(Patterns)}
+\* patterns laid out in every way: those with four or more global entities, use-list orders (module- or function-level), strings
+LayoutPatterns == {k \in 1..Len(Patterns) : \/ Cardinality({e \in 1..Len(Patterns[k]) : Patterns[k][e].k \in GlobKinds}) >= 4
+                                             \/ \E e \in 1..Len(Patterns[k]) : Patterns[k][e].k \in StrKinds \cup {"ulo", "ulobb"}}
+LayoutFaultPatterns == {k \in LayoutPatterns : Len(Patterns[k]) <= 4 \/ \E e \in 1..Len(Patterns[k]) : Patterns[k][e].k \in StrKinds}
 AllSources ==
   CASE SourceSet = "patterns" -> PatternSet
-    [] SourceSet = "faults"   -> UNION {RefFaults(s) \cup DupFaults(s) \cup ClashFaults(s) \cup QuotedFaults(s) \cup DelFaults(s) \cup NumeralFaults(s) \cup DupZeroFaults(s) : s \in PatternSet}
+    [] SourceSet = "faults"   -> UNION {RefFaults(s) \cup DupFaults(s) \cup ClashFaults(s) \cup QuotedFaults(s) \cup DelFaults(s) \cup NumeralFaults(s) \cup DupZeroFaults(s) \cup CrossFaults(s) \cup EmptyQuotedFaults(s) \cup ModLocalFaults(s) \cup WideIdFaults(s) : s \in PatternSet}
     [] SourceSet = "perms"    -> UNION {Perms(s) : s \in PatternSet}
     [] SourceSet = "faultperms" -> UNION {UNION {RefFaults(t) \cup DupFaults(t) \cup ClashFaults(t) : t \in Perms(s)} : s \in {u \in PatternSet : Len(u) <= 5}}
+    [] SourceSet = "layouts"  -> {Patterns[k] : k \in LayoutPatterns}
+    [] SourceSet = "layoutfaults" -> UNION {RefFaults(Patterns[k]) \cup DupFaults(Patterns[k]) : k \in LayoutFaultPatterns}
     [] SourceSet = "alias"    -> {AliasPatterns[k] : k \in 1..Len(AliasPatterns)}
                                   \cup UNION {RefFaults(AliasPatterns[k]) : k \in 1..Len(AliasPatterns)}
-    [] SourceSet = "all"      -> PatternSet \cup UNION {RefFaults(s) \cup DupFaults(s) \cup ClashFaults(s) \cup QuotedFaults(s) \cup DelFaults(s) \cup NumeralFaults(s) \cup DupZeroFaults(s) : s \in PatternSet}
+    [] SourceSet = "all"      -> PatternSet \cup UNION {RefFaults(s) \cup DupFaults(s) \cup ClashFaults(s) \cup QuotedFaults(s) \cup DelFaults(s) \cup NumeralFaults(s) \cup DupZeroFaults(s) \cup CrossFaults(s) \cup EmptyQuotedFaults(s) \cup ModLocalFaults(s) \cup WideIdFaults(s) : s \in PatternSet}
                                   \cup {AliasPatterns[k] : k \in 1..Len(AliasPatterns)}
 
 ----------------------------------------------------------------------------
@@ -273,7 +351,18 @@ AttrBodies(s, n) == LET k == Cardinality({e \in 1..Len(s) : s[e].k = "attr" /\ s
                     [x \in 1..k |-> s[CHOOSE e \in 1..Len(s) : s[e].k = "attr" /\ s[e].n = n
                                                 /\ Cardinality({y \in 1..e : s[y].k = "attr" /\ s[y].n = n}) = x].body]
 
-ModuleOf(s) == [ types   |-> SortNames(NamesOfIdx(s, "type")),
+\* string entities: module asm lines in textual order; of the target definitions of a kind the last one counts
+SeqOfKind(s, k) == [x \in 1..Cardinality({e \in 1..Len(s) : s[e].k = k}) |->
+                      CHOOSE e \in 1..Len(s) : s[e].k = k /\ Cardinality({y \in 1..e : s[y].k = k}) = x]
+LastOfKind(s, k, l) == LET es == {e \in 1..Len(s) : s[e].k = k} IN
+                       IF es = {} THEN <<"", "">> ELSE StrVal(s[CHOOSE e \in es : \A y \in es : y <= e].body, l)
+\* string constants (c"..." initialisers, metadata strings) with their values, in textual order
+StrEnts(s) == SelectSeq([e \in 1..Len(s) |-> e], LAMBDA e : s[e].body \in {"cstr", "mdstr"})
+ModuleOf(s, l) ==
+               [ asms    |-> [x \in 1..Len(SeqOfKind(s, "asm")) |-> StrVal(s[SeqOfKind(s, "asm")[x]].body, l)],
+                 srcfile |-> LastOfKind(s, "srcfile", l), triple |-> LastOfKind(s, "triple", l), datalayout |-> LastOfKind(s, "datalayout", l),
+                 strs    |-> [x \in 1..Len(StrEnts(s)) |-> [k |-> s[StrEnts(s)[x]].k, key |-> KeyOf(s, StrEnts(s)[x]), val |-> StrVal("ml", l)]],
+                 types   |-> SortNames(NamesOfIdx(s, "type")),
                  comdats |-> SortNames(NamesOfIdx(s, "comdat")),
                  globals |-> KeysOfKind(s, "global"), aliases |-> KeysOfKind(s, "alias"),
                  ifuncs  |-> KeysOfKind(s, "ifunc"),  funcs   |-> KeysOfKind(s, "func"),
@@ -283,16 +372,17 @@ ModuleOf(s) == [ types   |-> SortNames(NamesOfIdx(s, "type")),
                  nmdNodes |-> [x \in 1..Cardinality(NamesOfIdx(s, "nmd")) |-> NmdNodes(s, SortNames(NamesOfIdx(s, "nmd"))[x])],
                  mds     |-> SortNames(NamesOfIdx(s, "md")) ]
 
-Canon(s) == IF HasDupTop(s) \/ HasDupLocal(s) \/ HasUndef(s) \/ HasAliasCycle(s)
-            THEN [st |-> "err"] ELSE [st |-> "ok", mod |-> ModuleOf(s)]
+Canon(s, l) == IF HasDupTop(s) \/ HasDupLocal(s) \/ HasUndef(s) \/ HasAliasCycle(s)
+            THEN [st |-> "err"] ELSE [st |-> "ok", mod |-> ModuleOf(s, l)]
 
 ----------------------------------------------------------------------------
 \* The machine
-Init == /\ pc = "choose" /\ src = <<>> /\ i = 1 /\ old = EmptyOld /\ new = EmptyNew /\ pend = {}
+Init == /\ pc = "choose" /\ src = <<>> /\ lay = PlainLayout /\ i = 1 /\ old = EmptyOld /\ new = EmptyNew /\ pend = {}
         /\ uses = {} /\ todo = {} /\ res = [st |-> "run"] /\ picks = <<>>
 
 Choose == /\ pc = "choose"
           /\ src' \in AllSources
+          /\ lay' \in IF SourceSet \in {"layouts", "layoutfaults"} THEN {Layouts[k] : k \in 2..Len(Layouts)} ELSE {PlainLayout}
           /\ pc' = "index"
           /\ UNCHANGED <<i, old, new, pend, uses, todo, res, picks>>
 
@@ -333,10 +423,12 @@ Index ==
                       /\ UNCHANGED <<pc, pend, res>>
             [] idx \in {"attr", "nmd"} ->
                  old' = [old EXCEPT ![idx][e.n] = Append(@, i)] /\ UNCHANGED <<pc, pend, res>>
+            [] e.k = "asm"   -> old' = [old EXCEPT !.asms = Append(@, i)] /\ UNCHANGED <<pc, pend, res>>
+            [] e.k \in TargetKinds -> old' = [old EXCEPT !.target[e.k] = i] /\ UNCHANGED <<pc, pend, res>>   \* the last one wins
             [] e.k = "ulo"   -> old' = [old EXCEPT !.ulos = Append(@, i)] /\ UNCHANGED <<pc, pend, res>>
             [] e.k = "ulobb" -> old' = [old EXCEPT !.ulobbs = Append(@, i)] /\ UNCHANGED <<pc, pend, res>>
   /\ i' = IF i > Len(src) THEN i ELSE i + 1
-  /\ UNCHANGED <<src, new, uses, todo, picks>>
+  /\ UNCHANGED <<src, lay, new, uses, todo, picks>>
 
 \* chase of alias types over the AST index, as newType does
 RECURSIVE ChaseOld(_, _)
@@ -392,7 +484,7 @@ Pick(n) ==
   /\ pc \in PickPhases
   /\ n \in pend
   /\ picks' = Append(picks, <<pc, n>>)
-  /\ UNCHANGED <<src, i, old>>
+  /\ UNCHANGED <<src, lay, i, old>>
   /\ CASE pc = "createType" ->
             LET tgt == ChaseOld(n, {}) IN
             IF tgt = "cycle" THEN Fail("err") /\ UNCHANGED <<new, uses, todo>>
@@ -426,12 +518,12 @@ Pick(n) ==
 BlockDefined(f, bname) == old.glob[f] # 0 /\ src[old.glob[f]].k = "func" /\ bname \in BlockNames(src[old.glob[f]])
 Tail3 ==
   /\ pc \in {"ulo", "ulobb", "fixBaddr"}
-  /\ UNCHANGED <<src, i, old, new, uses, picks>>
+  /\ UNCHANGED <<src, lay, i, old, new, uses, picks>>
   /\ CASE pc = "ulo" ->
             \* the directive's value is translated here: a global is looked up; a blockaddress constant
             \* looks up its function and is queued for the block fix-up of step 7
             LET rs == [x \in 1..Len(old.ulos) |-> src[old.ulos[x]].refs[1]] IN
-            IF \E x \in 1..Len(rs) : new.glob[rs[x].to] = "none"
+            IF \E x \in 1..Len(rs) : new.glob[rs[x].to] = "none" \/ RefClass(rs[x].rk) = "local"   \* no function scope here
             THEN Fail("err") /\ UNCHANGED todo
             ELSE /\ pc' = "ulobb" /\ UNCHANGED <<res, pend>>
                  /\ todo' = todo \cup { <<rs[x].to, rs[x].aux>> : x \in {x \in 1..Len(rs) : rs[x].rk = "l.baddr"} }
@@ -445,10 +537,15 @@ Tail3 ==
 \* step 8: assemble the module (addDefsToModule): types and comdats in natural order, attribute
 \* groups and metadata by ID, globals in recorded textual order, all from the AST indices
 KindSeq(k) == SelectSeq(old.globOrder, LAMBDA n : src[old.glob[n]].k = k)
+TargetVal(k) == IF old.target[k] = 0 THEN <<"", "">> ELSE StrVal(src[old.target[k]].body, lay)
 AddDefs ==
   /\ pc = "addDefs"
   /\ res' = [st |-> "ok",
-             mod |-> [ types   |-> SortNames({n \in Names : old.type[n] # 0}),
+             mod |-> [ asms    |-> [x \in 1..Len(old.asms) |-> StrVal(src[old.asms[x]].body, lay)],
+                       srcfile |-> TargetVal("srcfile"), triple |-> TargetVal("triple"), datalayout |-> TargetVal("datalayout"),
+                       strs    |-> LET es == SelectSeq([e \in 1..Len(src) |-> e], LAMBDA e : src[e].body \in {"cstr", "mdstr"}) IN
+                                   [x \in 1..Len(es) |-> [k |-> src[es[x]].k, key |-> KeyOf(src, es[x]), val |-> StrVal("ml", lay)]],
+                       types   |-> SortNames({n \in Names : old.type[n] # 0}),
                        comdats |-> SortNames({n \in Names : old.comdat[n] # 0}),
                        globals |-> KindSeq("global"), aliases |-> KindSeq("alias"),
                        ifuncs  |-> KindSeq("ifunc"),  funcs   |-> KindSeq("func"),
@@ -461,7 +558,7 @@ AddDefs ==
                                         [r \in 1..Len(src[old.nmd[ns[x]][y]].refs) |-> src[old.nmd[ns[x]][y]].refs[r].to]])],
                        mds     |-> SortNames({n \in Names : old.md[n] # 0}) ]]
   /\ pc' = "done"
-  /\ UNCHANGED <<src, i, old, new, pend, uses, todo, picks>>
+  /\ UNCHANGED <<src, lay, i, old, new, pend, uses, todo, picks>>
 
 Next == Choose \/ Index \/ (\E n \in Names : Pick(n)) \/ Tail3 \/ AddDefs
 Spec == Init /\ [][Next]_vars
@@ -470,7 +567,7 @@ Spec == Init /\ [][Next]_vars
 \* Properties
 Done == pc = "done"
 \* C12 (confluence) and C05 (error exactly on undefined / duplicate names)
-Deterministic == Done => res = Canon(src)
+Deterministic == Done => res = Canon(src, lay)
 ErrorOnFault == Done /\ (HasUndef(src) \/ HasDupTop(src) \/ HasDupLocal(src)) => res.st = "err"
 NeverCrash == res.st # "crash"
 \* C04: every resolved reference is bound to the defining object itself (no look-alike copy), and
@@ -483,13 +580,20 @@ ScaffoldBeforeUse ==
        => \A n \in Names : (old.glob[n] # 0 => new.glob[n] # "none") /\ (old.md[n] # 0 => new.md[n] # "none")
   /\ pc \in {"translateType"} /\ res.st = "run" => \A n \in Names : old.type[n] # 0 => new.type[n] # "none"
 \* C20: the assembled module lists its definitions in canonical order
-CanonOrder == Done /\ res.st = "ok" => res.mod = ModuleOf(src)
+CanonOrder == Done /\ res.st = "ok" => res.mod = ModuleOf(src, lay)
+\* C20: textual order is the lexicographic order of the (line, column) positions the layout gives the entities --
+\* whatever the indentation and however many definitions share a line -- and the recorded order of the global
+\* entities is that order
+TextualIsPositional ==
+  /\ \A x, y \in 1..Len(src) : x < y => PosLess(Pos(lay, x, Len(src)), Pos(lay, y, Len(src)))
+  /\ \A x, y \in 1..Len(old.globOrder) : x < y =>
+        PosLess(Pos(lay, old.glob[old.globOrder[x]], Len(src)), Pos(lay, old.glob[old.globOrder[y]], Len(src)))
 \* vacuity guards (negated in TranslateVacuity.cfg)
 NeverOk == ~(Done /\ res.st = "ok")
 NeverErr == ~(Done /\ res.st = "err")
 
 \* vector emission: one line per finished run of a distinct source (first order reached)
 Emit == (pc' = "done" /\ pc # "done") =>
-          Serialize(ToJson([src |-> src', want |-> Canon(src'), got |-> res', picks |-> picks']) \o "\n", "vectors.ndjson",
+          Serialize(ToJson([src |-> src', lay |-> lay', want |-> Canon(src', lay'), got |-> res', picks |-> picks']) \o "\n", "vectors.ndjson",
                     [format |-> "TXT", charset |-> "UTF-8", openOptions |-> <<"WRITE", "CREATE", "APPEND">>]).exitValue = 0
 =============================================================================
